@@ -404,9 +404,13 @@ theorem replica_fetch_eq (a b : Impl) (sa : a.σ) (sb : b.σ) (k : Bytes) :
     (replica2Impl a b).step (sa, sb) (.fetch k) =
       (match a.step sa (.fetch k) with
        | (sa1, .bytes v) => ((sa1, sb), .bytes v)
+       | (sa1, .notExist) =>
+         match b.step sb (.fetch k) with
+         | (sb1, o) => ((sa1, sb1), o)
        | (sa1, _) =>
          match b.step sb (.fetch k) with
-         | (sb1, o) => ((sa1, sb1), o)) := rfl
+         | (sb1, .bytes v) => ((sa1, sb1), .bytes v)
+         | (sb1, _) => ((sa1, sb1), .err)) := rfl
 
 /-- fetch, stat, remove and enumerate of `replica[a, b]` answer as the left-biased union of the two
 contents does, and act on each side as the same operation -/
